@@ -7,7 +7,8 @@ Import ListNotations.
 From Coq Require Import QArith Qcanon.
 From SV Require Import Base.Ops Base.Arr Model.Vec3 Model.Scene Model.Visibility
   Spec.VisibilitySpec Proofs.VisibilityScan Proofs.VisibilitySym Proofs.VisibilitySegment
-  Proofs.PipRect Proofs.PipRectSurface Instances.VisibilityQc Instances.PipRectQc.
+  Proofs.PipRect Proofs.PipRectSurface Proofs.PipGeneral Proofs.PipTriangle
+  Instances.VisibilityQc Instances.PipRectQc.
 Close Scope Qc_scope.
 Close Scope Q_scope.
 
@@ -250,3 +251,60 @@ Theorem C07_pip_rect_edge_half_open :
   pip e6 e6 (rect_surface unit_floor) (vqc 0 1, vqc 1 2, vqc 0 1) = true.
 Proof. exact right_edge_excluded_witness. Qed.
 Print Assumptions C07_pip_rect_edge_half_open.
+
+(** (8) General position: the tolerances drop out.  For ANY polygon [poly2] in the horizontal plane
+    (z = 0) and a point [pt] such that for every side (a0, a1) ([side_gp]): both end points are
+    farther than dl (eta <= 2 dl) from the ray's line y = pt.y, a0 <> a1, and -- if the side
+    crosses that line -- epsilon |a1 - a0| < |a1.y - a0.y| (steeper than the epsilon gate; a
+    flatter crossing side is skipped by the code, which then reports interior points of sliver
+    polygons outside): the winding count of the model is the signed crossing number
+    [crossing_number], which uses comparisons and ring operations only:
+    -1 for a side crossing the line upwards with pt strictly to its left, +1 for a side crossing
+    it downwards with pt strictly to its right, 0 otherwise. *)
+Theorem C07_winding_general_position {T} {O : Ops T} {RL : RingLaws T} {OL : OrderLaws T}
+    {FL : FieldLaws T} {SL : SqrtLaws T} (eps eta dl : T) (pt : @vec T) (poly2 : list (@vec T)) :
+  (0 <= eps)%T -> (0 <= eta)%T -> (eta <= dl + dl)%T ->
+  vz pt = 0%T -> (forall v, In v poly2 -> vz v = 0%T) ->
+  (forall s, In s (sides poly2) -> side_gp eps dl pt s) ->
+  winding eps eta pt poly2 = crossing_number pt poly2.
+Proof. exact (winding_general_position eps eta dl pt poly2). Qed.
+Print Assumptions C07_winding_general_position.
+
+(** ... so for a polygon in a plane orthogonal to a coordinate axis (unit normal, any of the six)
+    [point_in_polygon] is "crossing number <> 0" of the rotated and flattened data
+    ([proj2d ax up] = [flat] after [rotation_to_z]) *)
+Theorem C07_pip_general_position {T} {O : Ops T} {RL : RingLaws T} {OL : OrderLaws T}
+    {FL : FieldLaws T} {SL : SqrtLaws T} (eps eta dl : T) (p : @vec T) (poly : list (@vec T))
+    (ax : axis) (up : bool) :
+  (0 <= eps)%T -> (0 <= eta)%T -> (eta <= dl + dl)%T ->
+  (tabs (vdot (vsub p (nthv poly 0)) (axis_normal ax up)) <= eta)%T ->
+  (forall s, In s (sides (map (proj2d ax up) poly)) -> side_gp eps dl (proj2d ax up p) s) ->
+  point_in_polygon eps eta p poly (axis_normal ax up)
+  = negb (Z.eqb (crossing_number (proj2d ax up p) (map (proj2d ax up) poly)) 0%Z).
+Proof. exact (pip_general_position eps eta dl p poly ax up). Qed.
+Print Assumptions C07_pip_general_position.
+
+(** (9) Triangles.  The crossing number of a non-degenerate triangle is non-zero exactly for the
+    points strictly inside (on the same side of all three sides; it is -1 for a counter-clockwise
+    and +1 for a clockwise triangle), for every point on none of the side lines whose ray line
+    passes through no vertex -- ordered ring only ... *)
+Theorem C07_crossing_triangle {T} {O : Ops T} {RL : RingLaws T} {OL : OrderLaws T}
+    (pt A B C : @vec T) :
+  vy A <> vy pt -> vy B <> vy pt -> vy C <> vy pt ->
+  cross2 A B pt <> 0%T -> cross2 B C pt <> 0%T -> cross2 C A pt <> 0%T -> cross2 A B C <> 0%T ->
+  (crossing_number pt [A; B; C] <> 0%Z <-> inside_tri A B C pt).
+Proof. exact (crossing_triangle pt A B C). Qed.
+Print Assumptions C07_crossing_triangle.
+
+(** ... hence [pip_correct_at] for triangles on axis planes in general position ([tri_gp]: the
+    three sides satisfy [side_gp], the point is on no side line, the triangle is not degenerate) *)
+Theorem C07_pip_correct_triangle {T} {O : Ops T} {RL : RingLaws T} {OL : OrderLaws T}
+    {FL : FieldLaws T} {SL : SqrtLaws T} (eps eta dl : T) (P0 P1 P2 p : @vec T) (ax : axis) (up : bool) :
+  (0 <= eps)%T -> (0 <= eta)%T -> (eta <= dl + dl)%T ->
+  (tabs (side_of ([P0; P1; P2], axis_normal ax up) p) <= eta)%T ->
+  tri_gp eps dl (proj2d ax up P0) (proj2d ax up P1) (proj2d ax up P2) (proj2d ax up p) ->
+  pip_correct_at eps eta
+    (fun x => inside_tri (proj2d ax up P0) (proj2d ax up P1) (proj2d ax up P2) (proj2d ax up x))
+    ([P0; P1; P2], axis_normal ax up) p.
+Proof. exact (pip_correct_triangle eps eta dl P0 P1 P2 p ax up). Qed.
+Print Assumptions C07_pip_correct_triangle.
